@@ -107,6 +107,12 @@ class Mode(typing.Container[Text]):
             raise ValueError("mode must start with 'r', 'w', 'x', or 'a'")
         if "t" in mode and "b" in mode:
             raise ValueError("mode can't be binary ('b') and text ('t')")
+        if sum(mode.count(c) for c in "rwxa") != 1:
+            raise ValueError(
+                "mode must have exactly one of create/read/write/append mode"
+            )
+        if any(mode.count(c) > 1 for c in "+bt"):
+            raise ValueError("invalid mode: '{}'".format(mode))
 
     def validate_bin(self):
         # type: () -> None
